@@ -76,13 +76,13 @@ structure Unresolved where
   path : String
   deriving Inhabited
 
-/-- How the generator reads the `optional` / `delimited` attributes.  On the pinned tree this was
-    the raw `element.get(...)` string used for truthiness (so `optional="false"` meant *true*); the
-    current tree reads them with `get_boolean_attribute`. This definition mirrors the current tree. -/
+/-- How the generator reads the `optional` / `delimited` attributes: `get_boolean_attribute`
+    (`text.lower() == "true"`).  On the pinned tree this was the raw `element.get(...)` string used for
+    truthiness, so `optional="false"` meant *true* — see known_findings.json (fixed in eb42e3d). -/
 def flagAttr (e : Xml) (name : String) : Bool :=
   match e.get name with
   | none => false
-  | some t => !t.isEmpty
+  | some t => PyStr.lower t == "true"
 
 abbrev Defs := List (String × Unresolved)
 
